@@ -238,7 +238,10 @@ class Builder:
         if k == "tab":
             sel, cases, dflt = p[1], p[2], p[3]
 
-            def out(o):
+            def out(o, m=None):
+                if o[0] == "trav":
+                    # a lazy traverser over nothing: like any object without __bool__ / __len__ it is truthy
+                    return find(path.no_such_key_anywhere, m)
                 if o[0] == "v":
                     return dec(o[1])
                 if o[0] == "b":
@@ -249,8 +252,8 @@ class Builder:
                 key = selector(sel, m)
                 for v, o in cases:
                     if same(dec(v), key):
-                        return out(o)
-                return out(dflt)
+                        return out(o, m)
+                return out(dflt, m)
 
             return Named(tab, "tab:" + sel)
         if k == "nb":
